@@ -6,6 +6,15 @@ import pvlib
 from pvlib import Check, run_tlc, run_cases, payloads
 
 QUERY = ["a", "b", "_p", "zz"]
+# the model's abstract names are replayed under several concrete spellings of the same class (public / private): resolution and
+# `keys` depend only on the class and on string order, not on the shape of the name (suffixes ! and ?, capitals, digits, underscores)
+SPELLINGS = {"a": ["a", "a?", "a!", "Za", "a_1", "k?"], "b": ["b", "b!", "q?", "bB9_", "Z!", "b_?"],
+             "_p": ["_p", "_p?", "_q!", "__p", "_P", "_p_1"], "zz": ["zz", "z?", "zz!", "y!", "Zz", "z_"]}
+
+
+def spelling(i):
+    """forest i -> {abstract name: concrete spelling}; forest 0, 6, 12, .. keep the plain names"""
+    return {n: alts[(i // (1 + k)) % len(alts)] if i % 6 else alts[0] for k, (n, alts) in enumerate(SPELLINGS.items())}
 
 
 def prop_src(oid, n, kind):
@@ -22,9 +31,10 @@ def q(s):
     return '"' + s + '"'
 
 
-def expected(case, o, k, form):
+def expected(case, o, k, form, spell):
     """canonical text of the [value, error] pair produced by nil.try.{<query>}.A"""
     n = QUERY[k]
+    cn = spell[n]
     r = case["res"][o][k]
     tag = case["objs"][o]["efftag"]
     notag = tag == 0 and (r["r"] == "missing" or (r["r"] == "prop" and r["kind"] in ("meth", "fn"))) and form not in ("index", "which")
@@ -38,9 +48,9 @@ def expected(case, o, k, form):
     if form == "which":
         return f"[{r['owner']}, nil]" if r["r"] == "prop" else "[nil, nil]"
     if r["r"] == "noprop":
-        return f"[nil, <err NoPropErr: property `{n}` is not defined.>]"
+        return f"[nil, <err NoPropErr: property `{cn}` is not defined.>]"
     if r["r"] == "missing":
-        v = f"[{q('x%d' % r['owner'])}, {tag}, {q(n)}, {args[0]}, {args[1]}]"
+        v = f"[{q('x%d' % r['owner'])}, {tag}, {q(cn)}, {args[0]}, {args[1]}]"
     elif r["kind"] == "val":
         v = q(f"v{r['owner']}_{n}")
     else:
@@ -50,11 +60,11 @@ def expected(case, o, k, form):
     return f"[{v}, nil]"
 
 
-def program(case):
+def program(case, spell):
     lines, expect = [], []
     for i, ob in enumerate(case["objs"]):
         oid = i + 1
-        props = ", ".join(([f"tag: {oid}"] if ob["tagged"] else []) + [f"{p['n']}: {prop_src(oid, p['n'], p['kind'])}" for p in sorted(ob["own"], key=lambda p: p["n"])])
+        props = ", ".join(([f"tag: {oid}"] if ob["tagged"] else []) + [f"{spell.get(p['n'], p['n'])}: {prop_src(oid, p['n'], p['kind'])}" for p in sorted(ob["own"], key=lambda p: p["n"])])
         if ob["rk"] != "obj":
             lines.append(f"o{oid} := " + {"int": "5", "str": '"s"', "arr": "[1, 2]"}[ob["rk"]])
         elif ob["how"] == "lit":
@@ -75,12 +85,25 @@ def program(case):
         ob = case["objs"][o]
         if ob["rk"] != "obj":
             continue                     # the non-object root itself is not queried, only its descendants
-        for k, qn in enumerate(QUERY):
+        for k, an in enumerate(QUERY):
+            qn = spell[an]
             for form, src in (("read", f"{name}.{qn}"), ("call", f"{name}.{qn}(7, 8)"), ("index", f"{name}['{qn}]"),
                               ("which", f"{name}.which('{qn})&.tag"), ("chain", f"[{name}]@{qn}")):
                 lines.append(f"say(nil.try.{{|u| {src}}}.A)")
-                expect.append((f"{name} {form} {qn}", "out:" + expected(case, o, k, form)))
-        own_public = sorted((["tag"] if ob["tagged"] else []) + [p["n"] for p in case["objs"][o]["own"] if not p["n"].startswith("_")])
+                expect.append((f"{name} {form} {an}", "out:" + expected(case, o, k, form, spell)))
+            # the same lookup through the additional chain contexts: lonely (receiver is not nil: an ordinary call) and thoughtful
+            # (a failed call - NoPropErr included, after _missing had its chance - is replaced by the receiver)
+            e = expected(case, o, k, "call", spell)
+            okv = e[1:-len(", nil]")] if e.endswith(", nil]") else None
+            back = f"{{|r| 'recv if r == {name} else r}}"
+            for form, src, want in (("lonely", f"{name}&.{qn}(7, 8)", e),
+                                    ("thoughtful", f"{name}~.{qn}(7, 8).{back}", e if okv else '["recv", nil]'),
+                                    ("thoughtfullist", f"[{name}]~@{qn}(7, 8)@{back}", f"[[{okv}], nil]" if okv else '[["recv"], nil]')):
+                if form != "lonely" and ob["root"] != "obj":
+                    continue          # `r == recv` is not identity for descendants of non-object values (a child of "s" does not == itself)
+                lines.append(f"say(nil.try.{{|u| {src}}}.A)")
+                expect.append((f"{name} {form} {an}", "out:" + want))
+        own_public = sorted((["tag"] if ob["tagged"] else []) + [spell.get(p["n"], p["n"]) for p in case["objs"][o]["own"] if not p["n"].startswith("_")])
         lines.append(f"say({name}.keys)")
         expect.append((f"{name} keys", "out:[" + ", ".join(q(x) for x in own_public) + "]"))
         lines.append(f"say([{name}.ancestors@{{|x| x['tag]}}, {name}.ancestors.len, {name}.proto['tag]])")
@@ -94,13 +117,14 @@ def program(case):
     # one list chain over all objects of the forest, with more arguments than the markers name: every receiver gets the same arguments
     objs = [o for o in range(n) if case["objs"][o]["rk"] == "obj"]
     if len(objs) >= 2:
-        for k, qn in enumerate(QUERY):
+        for k, an in enumerate(QUERY):
+            qn = spell[an]
             for extra in ("7, 8, 9", "7, 8, 9, 10, 11"):
                 lines.append(f"say(nil.try.{{|u| [{', '.join('o%d' % (o + 1) for o in objs)}]@{qn}({extra})}}.A)")
-                each = [expected(case, o, k, "call") for o in objs]
+                each = [expected(case, o, k, "call", spell) for o in objs]
                 bad = next((e for e in each if not e.endswith(", nil]")), None)
                 want = bad if bad else "[[" + ", ".join(e[1:-len(", nil]")] for e in each) + "], nil]"
-                expect.append((f"o{objs[0] + 1} listchain {qn}", "out:" + want))
+                expect.append((f"o{objs[0] + 1} listchain {an}", "out:" + want))
     return "\n".join(lines), expect
 
 
@@ -119,7 +143,7 @@ def run():
         cases = [c for c in cases if len(c["objs"]) < 3 or ck.rng.random() < 0.34]
     reqs, exps = [], []
     for i, c in enumerate(cases):
-        src, expect = program(c)
+        src, expect = program(c, spelling(i))
         reqs.append({"id": str(i), "src": src})
         exps.append(expect)
     out = run_cases(reqs, label="C05")
@@ -156,7 +180,7 @@ def run():
     ck.cov["exhaustive"] = thorough
     ck.cov["rule"] = (f"forests = all histories of <= {maxobjs} constructor steps (literal / bear / bro, 10 property sets over a, b, _p, _missing with kinds value / "
                       "method / function); quick replays every forest of <= 2 objects and a seeded third of the 3-object ones, thorough all; per object and "
-                      "name in {a, b, _p, zz}: read, call with arguments, index by symbol, which, list-chain form; keys, ancestors, proto, kindOf?; "
+                      "name in {a, b, _p, zz}: read, call with arguments, index by symbol, which, list-chain form, lonely and thoughtful (scalar and list) chains; keys, ancestors, proto, kindOf?; "
                       "non-trivial = forests in which some lookup is inherited or goes through _missing")
     ck.assumptions = ["every object carries a unique `tag` so that structural == coincides with identity",
                       "queries run under nil.try.{..}.A so that NoPropErr outcomes are observed without ending the program"]
